@@ -2,6 +2,7 @@ package formatter
 
 import (
 	"strings"
+	"unicode"
 )
 
 // CanonicalizeSource applies the canonical GlyphLang formatting rules to source
@@ -17,7 +18,14 @@ import (
 //  4. At most one consecutive blank line; leading blank lines are removed.
 //  5. The file ends with exactly one newline (an empty file stays empty).
 func CanonicalizeSource(source string) string {
-	source = strings.TrimPrefix(source, "\ufeff") // strip UTF-8 BOM; the lexer rejects it
+	// Strip the UTF-8 BOM; the lexer rejects it. Everything before the first
+	// character of content goes with it - leading blank lines and indentation
+	// are removed below anyway - so that a second mark, or one that would only
+	// reach the start of the text once those are gone, does not survive into
+	// the output and make the next run strip it.
+	source = strings.TrimLeftFunc(source, func(r rune) bool {
+		return r == '\ufeff' || unicode.IsSpace(r)
+	})
 	// Only CRLF is a line ending. A lone CR is an ordinary character to the
 	// lexer - part of a string literal or of a comment - and stays what it is.
 	source = strings.ReplaceAll(source, "\r\n", "\n")
